@@ -869,6 +869,16 @@ func (r *rwRT) ruleOptOrder() {
 	})
 	in.Fields["f.Filename"] = Sym{Name: "filename1", Uniq: true}
 	in.Fields["f2.Filename"] = Sym{Name: "filename2", Uniq: true}
+	// a file that reaches this stage has an import declaration (the rewrite stage made it import seq): code that
+	// looks at the declarations before cleaning the imports finds one
+	{
+		gt := r.astPtr("GenDecl")
+		ref := base.alloc(&Obj{T: gt.(*types.Pointer).Elem(), Kind: 's', Fields: map[string]AV{"Tok": r.tokConst("IMPORT"), "Specs": SliceV{Elems: []AV{Sym{Name: "importspec:seq", NN: true}}}}})
+		for _, f := range []string{"f", "f2"} {
+			in.Fields[f+".File.Decls"] = SliceV{Elems: []AV{Dyn{T: gt, V: ref}}}
+			in.Fields[f+".File.Imports"] = SliceV{Elems: []AV{Sym{Name: "importspec:seq", NN: true}}}
+		}
+	}
 	sts := []*State{base}
 	for _, visit := range visits {
 		for _, f := range files {
